@@ -2197,11 +2197,56 @@ def normalize_module(tree: ast.Module, extern=None) -> ast.Module:
                             e.value, str) for e in coll[c.args[0].id].elts):
                 c.args[0] = ast.copy_location(clone(coll[c.args[0].id]),
                                               c.args[0])
+    # NAME = {"k": operator.mul, "l": some_function} (module level, bound
+    # once, never edited): NAME["k"] -> the function
+    bound_, count_ = {}, {}
+    for st in tree.body:
+        if isinstance(st, ast.Assign) and len(st.targets) == 1 and \
+                isinstance(st.targets[0], ast.Name):
+            count_[st.targets[0].id] = count_.get(st.targets[0].id, 0) + 1
+            bound_[st.targets[0].id] = st.value
+    ftabs = {}
+    for nm, v in bound_.items():
+        if count_[nm] == 1 and isinstance(v, ast.Dict) and v.keys and all(
+                k is not None and isinstance(k, ast.Constant)
+                for k in v.keys) and all(isinstance(
+                    x, (ast.Name, ast.Attribute)) for x in v.values):
+            edited = any(
+                (isinstance(n, ast.Subscript) and isinstance(
+                    n.ctx, (ast.Store, ast.Del)) and isinstance(
+                    n.value, ast.Name) and n.value.id == nm)
+                or (isinstance(n, ast.Call) and isinstance(
+                    n.func, ast.Attribute) and isinstance(
+                    n.func.value, ast.Name) and n.func.value.id == nm
+                    and n.func.attr in _MUT_METHODS)
+                or (isinstance(n, ast.Name) and n.id == nm and isinstance(
+                    n.ctx, (ast.Store, ast.Del)) and n is not None
+                    and sum(1 for m_ in ast.walk(tree) if isinstance(
+                        m_, ast.Name) and m_.id == nm and isinstance(
+                        m_.ctx, ast.Store)) > 1)
+                for n in ast.walk(tree))
+            if not edited:
+                ftabs[nm] = {k.value: x for k, x in zip(v.keys, v.values)}
+    if ftabs:
+        class _FT(ast.NodeTransformer):
+            def visit_Subscript(self, node):
+                self.generic_visit(node)
+                if isinstance(node.value, ast.Name) and node.value.id in \
+                        ftabs and isinstance(node.ctx, ast.Load) and \
+                        isinstance(node.slice, ast.Constant) and \
+                        node.slice.value in ftabs[node.value.id]:
+                    return ast.copy_location(clone(
+                        ftabs[node.value.id][node.slice.value]), node)
+                return node
+        tree = _FT().visit(tree)
+        ast.fix_missing_locations(tree)
+        tree._ft = _FT
     _restore_anchor_names(tree)
     _inline_decorators(tree)
     _inline_contextmanagers(tree)
     from . import normalize2 as n2
     n2.sentinel_gets(tree)
+    n2.unused_sentinel_params(tree)
     n2.inline_record_tables(tree)
     if n2.inline_value_objects(tree):
         _restore_anchor_names(tree)
@@ -2265,6 +2310,14 @@ def normalize_module(tree: ast.Module, extern=None) -> ast.Module:
     for n in ast.walk(tree):
         if isinstance(n, ast.FunctionDef):
             n2.incremental_dicts(n)
+            n2.single_use_dicts(n)
+            n2.scalarise_local_dicts(n)
+    if getattr(tree, "_ft", None) is not None:
+        # (a table key that became a literal once a helper was in place)
+        ft_ = tree._ft
+        tree = ft_().visit(tree)
+        tree._ft = ft_
+        ast.fix_missing_locations(tree)
     tree = n2.Idioms3().visit(tree)
     for n in ast.walk(tree):
         if isinstance(n, ast.FunctionDef):
